@@ -570,7 +570,10 @@ def assemble(unit, twin=False):
     text = expand_toks_templates(text)
     text, table, code = intern_tokens(text)
     full = "// GENERATED by vx from units/%s.vxu and %s's working tree - do not edit\n%s" % (unit.name, REPO, table)
-    for ft in unit.features:
+    feats = list(unit.features)
+    if "alloc::Allocator" in text and "allocator_api" not in feats:
+        feats.append("allocator_api")       # an assume_specification over Vec<T, A> names the allocator trait
+    for ft in feats:
         full += "#![feature(%s)]\n" % ft
     full += "#![allow(unused_imports, unused_variables, unused_mut, dead_code, unused_parens, unused_braces, non_snake_case, unused_assignments)]\nuse vstd::prelude::*;\nverus!{\n" + text + "\n} // verus!\nfn main(){}\n"
     a.text = full
